@@ -6,8 +6,20 @@ input bytes (byte for byte, the .log included - it prints no absolute paths), wh
 things the property says must not matter: PYTHONHASHSEED, working directory (absolute / relative output
 path), FASTA index cache cold or warm, stream buffer size, what ran before in the same process, and the
 format in which the same input assembly is supplied.
+
+"What ran before in the same process" includes what it left behind in memory: the allocation history decides the
+addresses of the objects of the next run, and nothing written to a file may depend on an address (identity hash,
+id() as a sort key, iteration order of a set or dict of objects that hash by identity).  check_history repeats
+runs on the same files in one process, in changing orders, with the garbage collector on / off, and with
+"churn" between the runs: blocks of every small-object size class and objects of the project's own classes are
+allocated, a random part is freed in random order (which scrambles the allocator's free lists) and the rest is
+kept.  The same is done at the start of fresh interpreters.  Its inputs are maps in which the outcome hangs on a
+tie that only the order of processing can decide: a contig shared by two or three Pretext pieces with equal
+overlaps (cut through the exact middle or into equal thirds, below or above one texel), Pretext pieces that
+overlap each other or duplicate one another, chromosomes of equal length competing for a size rank.
 """
 
+import gc
 import itertools
 import os
 import pathlib
@@ -68,11 +80,25 @@ class Work:
         cwd = {"root": self.root, "elsewhere": self.root / "elsewhere", "outdir": out_dir}[cfg.get("cwd", "root")]
         out_arg = f"{OUT}.{out_fmt}" if cfg.get("cwd") == "outdir" else out_dir / f"{OUT}.{out_fmt}"
         args = ["-a", self.inputs[in_fmt], "-p", self.inputs["pretext"], "-o", out_arg] + cfg.get("extra", [])
-        if cfg["via"] == "subprocess":
+        if cfg["via"] == "subprocess" and cfg.get("pre") is not None:
+            code, _, err = run_subprocess_pre(P2A, args, cwd, cfg.get("hashseed"), cfg["pre"])
+            err = err.decode(errors="replace")
+        elif cfg["via"] == "subprocess":
             code, _, err = g.run_subprocess(P2A, args, cwd=cwd, hashseed=cfg.get("hashseed"))
             err = err.decode(errors="replace")
         else:
-            code, err = self.run_inprocess(args, cwd, cfg.get("buffer"))
+            if cfg.get("churn"):
+                churn(**cfg["churn"])
+            was_enabled = gc.isenabled()
+            if cfg.get("gc") == "collect":
+                gc.collect()
+            elif cfg.get("gc") == "off":
+                gc.disable()
+            try:
+                code, err = self.run_inprocess(args, cwd, cfg.get("buffer"))
+            finally:
+                if was_enabled:
+                    gc.enable()
         if code != 0:
             shutil.rmtree(out_dir, ignore_errors=True)
             return None, f"exit {code}: {err[-400:]}"
@@ -96,6 +122,356 @@ class Work:
         finally:
             mod.FastaIndex = orig
         return code, (exc or "") + err
+
+
+# ------------------------------------------------------------------ allocation history
+
+_HOLD = []  # garbage kept alive between runs ("earlier work in the same process")
+_HOLD_MAX = 60_000
+
+
+def _project_objects(r):
+    """a few objects of the project's own classes (same size classes and types as the ones a run allocates)"""
+    out = []
+    try:
+        from tola.assembly.fragment import Fragment
+        from tola.assembly.gap import Gap
+        from tola.assembly.overlap_result import OverlapResult
+        from tola.assembly.scaffold import Scaffold
+
+        f = Fragment(f"other_{r.randrange(1000)}", 1, 10 + r.randrange(90), r.choice((1, -1)))
+        out.append(f)
+        out.append(Scaffold(f"s{r.randrange(1000)}", [f, Gap(100, "scaffold"), f]))
+        out.extend(OverlapResult(f, [f], 1, f.end) for _ in range(r.randrange(1, 4)))
+        from tola.assembly.build_utils import FoundFragment
+
+        ff = FoundFragment(f)
+        ff.add_scaffold(out[-1])
+        out.append(ff)
+    except Exception:  # the perturbation must never be the thing that fails
+        pass
+    return out
+
+
+def churn(seed, n, free):
+    """
+    Allocation history between two runs: n blocks spread over every small-object size class (bytes, lists, dicts,
+    sets, plain instances) and objects of the project's classes are created; a fraction `free` of them is released
+    in random order, the rest stays alive in _HOLD (itself thinned at random when it grows too long).
+    """
+    r = random.Random(seed)
+    new = []
+    for _ in range(n):
+        k = r.randrange(8)
+        if k < 3:
+            new.append(bytes(r.randrange(1, 500)))
+        elif k == 3:
+            new.append([None] * r.randrange(40))
+        elif k == 4:
+            new.append({i: None for i in range(r.randrange(12))})
+        elif k == 5:
+            new.append(set(range(r.randrange(12))))
+        elif k == 6:
+            new.append(type("Thing", (), {})() if r.random() < 0.05 else object())
+        else:
+            new.extend(_project_objects(r))
+    idx = list(range(len(new)))
+    r.shuffle(idx)
+    for i in idx[: int(free * len(idx))]:
+        new[i] = None
+    _HOLD.extend(x for x in new if x is not None)
+    if len(_HOLD) > _HOLD_MAX:
+        for i in r.sample(range(len(_HOLD)), len(_HOLD) // 2):
+            _HOLD[i] = None
+        _HOLD[:] = [x for x in _HOLD if x is not None]
+
+
+PRE_CODE = """
+import importlib, random, runpy, sys
+mod, pre = sys.argv[1], int(sys.argv[2])
+del sys.argv[1:3]
+r = random.Random(pre)
+if pre % 2:
+    importlib.import_module(mod)   # churn after the program's modules are loaded rather than before
+hold = []
+for _ in range(r.randrange(200, 6000)):
+    k = r.randrange(4)
+    hold.append(bytes(r.randrange(1, 500)) if k < 2 else [None] * r.randrange(40) if k == 2 else {i: None for i in range(r.randrange(12))})
+for i in r.sample(range(len(hold)), len(hold) // 2):
+    hold[i] = None
+runpy.run_module(mod, run_name="__main__", alter_sys=True)
+"""
+
+
+def run_subprocess_pre(module, args, cwd, hashseed, pre):
+    """python -m <module> in a fresh interpreter whose heap has been used (and partly freed) before the program starts"""
+    import subprocess
+    import sys
+
+    env = dict(os.environ)
+    if hashseed is None:
+        env.pop("PYTHONHASHSEED", None)
+    else:
+        env["PYTHONHASHSEED"] = str(hashseed)
+    proc = subprocess.run(
+        [sys.executable, "-c", PRE_CODE, module, str(pre), *[str(a) for a in args]],
+        cwd=cwd, env=env, stdout=subprocess.PIPE, stderr=subprocess.PIPE, timeout=600, check=False,
+    )  # fmt: skip
+    return proc.returncode, proc.stdout, proc.stderr
+
+
+# ------------------------------------------------------------------ maps whose outcome hangs on a tie
+
+
+def tie_case(name, bpt, short, spans, strands=None, order=None, joined=False, tags=None, flank=(5000, 4000), gap=200, other=5500):
+    """
+    Input: scaffold_1 = contig A, gap, short contig C, gap, contig B (plus scaffold_2, painted whole, as a
+    bystander in the size ranking).  Pretext pieces of scaffold_1 are given as spans (s, e) in coordinates of C:
+    the piece runs from the base after offset s to offset e of C; None = from the start / to the end of scaffold_1.
+    [(None, short // 2), (short // 2, None)] cuts C through its exact middle.  Pieces are listed in `order`, each
+    as a Pretext scaffold of its own or (joined) all in one.
+    """
+    a, b = flank
+    c0 = a + gap
+    total = c0 + short + gap + b
+    n = len(spans)
+    strands = strands or [1] * n
+    tags = tags or [["Painted"]] * n
+    pieces = []
+    for (s, e), strand, tg in zip(spans, strands, tags):
+        pieces.append(["scaffold_1", 1 if s is None else c0 + s + 1, total if e is None else c0 + e, strand, list(tg)])
+    pieces = [pieces[i] for i in (order or range(n))]
+    if joined:
+        rows = []
+        for p in pieces:
+            rows += ([["GAP", 100]] if rows else []) + [p]
+        pretext = [rows]
+    else:
+        pretext = [[p] for p in pieces]
+    scaffolds = [{"name": "scaffold_1", "pieces": [g.S(a), g.N(gap), g.S(short), g.N(gap), g.S(b)]}]
+    if other:
+        scaffolds.append({"name": "scaffold_2", "pieces": [g.S(other)]})
+        pretext.append([["scaffold_2", 1, other, 1, ["Painted"]]])
+    return {"name": name, "bpt": bpt, "seed": 17, "scaffolds": scaffolds, "pretext": pretext}
+
+
+def case_equal_sizes():
+    """nothing is cut, but everything that is ranked by size has an equal-sized rival: autosomes, unlocs of X, haplotigs"""
+    S = g.S
+    sizes = [3000, 3000, 3000, 2000, 400, 400, 400, 800, 800, 600, 600]
+    scaffolds = [{"name": f"scaffold_{i}", "pieces": [S(n)]} for i, n in enumerate(sizes, 1)]
+
+    def whole(i, strand, tags):
+        return [f"scaffold_{i}", 1, sizes[i - 1], strand, tags]
+
+    unloc = ["Painted", "X", "Unloc"]
+    pretext = [
+        [whole(1, 1, ["Painted"])],
+        [whole(2, -1, ["Painted"])],
+        [whole(4, 1, ["Painted", "X"]), ["GAP", 100], whole(5, 1, unloc), ["GAP", 100], whole(6, -1, unloc), ["GAP", 100], whole(7, 1, unloc)],
+        [whole(3, 1, ["Painted"])],
+        [whole(8, 1, ["Haplotig"])],
+        [whole(9, 1, ["Haplotig"])],
+        [whole(10, 1, [])],
+        [whole(11, 1, [])],
+    ]
+    return {"name": "equal-sizes", "bpt": 10.0, "seed": 18, "scaffolds": scaffolds, "pretext": pretext}
+
+
+def tie_family(quick, rng):
+    """small-scope family: kind of tie x resolution below / above the piece size x strands x order x layout"""
+    shapes = {
+        # name: (short contig length, spans)
+        "mid": (1000, [(None, 500), (500, None)]),  # two holders, equal overlaps
+        "thirds": (900, [(None, 300), (300, 600), (600, None)]),  # three holders, the middle piece lies inside C
+        "whole": (1000, [(None, 1000), (0, None)]),  # Pretext pieces overlap each other: both contain all of C
+        "dup": (1000, [(None, 500), (500, None), (500, None)]),  # a Pretext piece given twice
+        "inner": (1000, [(None, 500), (250, 750), (500, None)]),  # a third piece overlapping both others inside C
+    }
+    out = []
+
+    def add(shape, bpt, **kw):
+        short, spans = shapes[shape]
+        label = ",".join(f"{k}={v}" for k, v in kw.items())
+        out.append(tie_case(f"tie-{shape}-{bpt:g}" + (f"-{label}" if label else ""), bpt, short, spans, **kw))
+
+    # resolutions: both overlaps under one texel (no cut: the contig goes to one side), a cut allowed, far above
+    add("mid", 1000.0)
+    add("mid", 1000.0, order=[1, 0])
+    add("mid", 1000.0, strands=[1, -1], flank=(5000, 5000))
+    add("mid", 1000.0, joined=True, tags=[["Painted", "X"], ["Painted", "X"]])
+    add("mid", 10.0, flank=(5000, 5000), other=5500)  # a real cut: chromosomes of equal length
+    add("thirds", 1000.0)
+    add("whole", 1000.0)
+    out.append(case_equal_sizes())
+    if quick:
+        return out
+    add("dup", 1000.0)
+    add("mid", 499.5)  # 500 bp overlaps against a 500 bp limit
+    add("mid", 1000.0, flank=(5000, 5000), other=6000)
+    add("mid", 1000.0, tags=[["Painted"], ["Painted", "X"]])
+    add("mid", 1000.0, joined=True, tags=[["Painted"], ["Painted", "Unloc"]])
+    add("mid", 1000.0, other=0)
+    add("inner", 1000.0)
+    add("inner", 100.0)
+    # neighbours of the tie (one base off the middle): silent either way, they keep the family honest
+    out.append(tie_case("tie-off-1", 1000.0, 1000, [(None, 499), (499, None)]))
+    out.append(tie_case("tie-off+1", 1000.0, 1000, [(None, 501), (501, None)]))
+    combos = [
+        (shape, bpt, strands, rev, joined)
+        for shape in shapes
+        for bpt in (1000.0, 10.0)
+        for strands in itertools.product((1, -1), repeat=len(shapes[shape][1]))
+        for rev in (False, True)
+        for joined in (False, True)
+    ]
+    rng.shuffle(combos)
+    # pieces that duplicate one another usually cannot be honoured (the tool refuses them, which it must then do every
+    # time): a few of those are enough
+    quota = {"mid": 8, "thirds": 8, "whole": 4, "dup": 2, "inner": 2}
+    for shape, bpt, strands, rev, joined in combos:
+        if not quota[shape]:
+            continue
+        quota[shape] -= 1
+        n = len(shapes[shape][1])
+        add(shape, bpt, strands=list(strands), order=list(range(n))[::-1] if rev else None, joined=joined)
+    for k in range(8):
+        out.append(case_random_ties(rng, k))
+    return out
+
+
+def case_random_ties(rng, k):
+    """random map: several input scaffolds, short contigs cut through their exact middle, pieces shuffled over Pretext scaffolds"""
+    bpt = rng.choice((1000.0, 750.0, 20.0))
+    scaffolds, pieces = [], []
+    for i in range(1, rng.randint(2, 4) + 1):
+        name = f"scaffold_{i}"
+        parts, cuts, p = [], [], 0
+        for j in range(rng.randint(2, 5)):
+            if j:
+                parts.append(g.N(200))
+                p += 200
+            if j % 2 and rng.random() < 0.8:
+                n = 2 * rng.randint(100, 350)  # even, at most 700: both halves are below one 750 bp texel
+                cuts.append(p + n // 2)
+            else:
+                n = 500 * rng.randint(4, 12)
+            parts.append(g.S(n))
+            p += n
+        scaffolds.append({"name": name, "pieces": parts})
+        bounds = [0] + cuts + [p]
+        for lo, hi in zip(bounds, bounds[1:]):
+            pieces.append([name, lo + 1, hi, rng.choice((1, -1)), ["Painted"]])
+    rng.shuffle(pieces)
+    pretext = []
+    while pieces:
+        take = rng.choice((1, 1, 2))
+        rows = []
+        for pc in pieces[:take]:
+            rows += ([["GAP", 100]] if rows else []) + [pc]
+        pretext.append(rows)
+        pieces = pieces[take:]
+    return {"name": f"randtie{k}", "bpt": bpt, "seed": 1700 + k, "scaffolds": scaffolds, "pretext": pretext}
+
+
+def history_cfg(plan_seed, step, fmts):
+    """run configuration of step `step` of a history plan (JSON-able; the same for run() and replay())"""
+    r = random.Random(f"{plan_seed}/{step}")
+    cfg = {"via": "inprocess", "in_fmt": fmts[0], "out_fmt": fmts[1], "cwd": r.choice(("root", "elsewhere")), "gc": r.choice(("on", "on", "off", "collect"))}
+    if fmts[0] == "fa":
+        cfg["cache"] = "warm"
+    if r.random() < 0.85:
+        cfg["churn"] = {"seed": r.randrange(10**6), "n": r.choice((3, 30, 300, 1500)), "free": r.choice((0.0, 0.5, 0.9, 1.0))}
+    return cfg
+
+
+def outcome_diff(ref, snap):
+    """None if two runs ended the same way (both refused the input, or both wrote the same bytes)"""
+    if ref is None or snap is None:
+        return None if ref is snap else ("the input was refused by one run and accepted by the other")
+    return diff_snapshots(ref, snap)
+
+
+def check_history(cases, col, reps, n_pre, plan_seed):
+    """
+    For every case: a reference run in a fresh interpreter, n_pre fresh interpreters whose heap was used before
+    the program starts, and `reps` rounds of in-process runs over all cases in a new order each round, each run
+    preceded by churn / with the collector on or off.  Every run must end like the reference, byte for byte.
+    """
+    with tempfile.TemporaryDirectory() as root:
+        works = []
+        for i, case in enumerate(cases):
+            d = pathlib.Path(root) / f"t{i}"
+            d.mkdir()
+            w = Work(case, d)
+            fmts = (("agp", "agp"), ("agp", "tpf"), ("fa", "fa"), ("tpf", "agp"))[i % 4]
+            if fmts[0] not in w.inputs:
+                fmts = ("agp", "agp")
+            ref_cfg = {"via": "subprocess", "hashseed": 0, "cwd": "root", "cache": "cold", "in_fmt": fmts[0], "out_fmt": fmts[1]}
+            ref, err = w.run(ref_cfg)
+            col.case((case["name"], "history-ref"))
+            works.append({"work": w, "fmts": fmts, "ref_cfg": ref_cfg, "ref": ref, "bad": False})
+            for k in range(n_pre):
+                cfg = dict(ref_cfg, hashseed=k, pre=1000 * i + k, cache="warm")  # fixed hash seeds: the run can be repeated exactly
+                snap, err = w.run(cfg)
+                col.case((case["name"], "pre", k), sample=None)
+                if diff := outcome_diff(ref, snap):
+                    col.fail(
+                        f"case {case['name']}: a fresh interpreter that allocated and freed unrelated objects before the program started "
+                        f"({cfg}) does not reproduce the outputs of the reference run {ref_cfg} on the same files: {diff} {err[-200:]}",
+                        {"kind": "pair", "case": case, "ref": ref_cfg, "run": cfg},
+                    )
+                    works[-1]["bad"] = True
+                    break
+        order_rng = random.Random(f"{plan_seed}/order")
+        step = 0
+        for rep in range(reps):
+            order = list(range(len(works)))
+            order_rng.shuffle(order)
+            for i in order:
+                step += 1
+                it = works[i]
+                if it["bad"] or col.full:
+                    continue
+                case = it["work"].case
+                cfg = history_cfg(plan_seed, step, it["fmts"])
+                snap, err = it["work"].run(cfg)
+                inp = {"kind": "history", "case": case, "fmts": list(it["fmts"]), "ref": it["ref_cfg"], "plan_seed": plan_seed, "step": step, "run": cfg}
+                col.case((case["name"], "history", step), sample=inp if step == 3 else None)
+                if d := outcome_diff(it["ref"], snap):
+                    it["bad"] = True  # one report per case
+                    col.fail(
+                        f"case {case['name']}: run {rep + 1} in this process on the same unchanged input files ({cfg}; earlier runs on the same "
+                        f"and on other inputs, unrelated objects allocated and freed in between) does not reproduce the outputs of the "
+                        f"reference run in a fresh interpreter: {d} {err[-200:]} - the outputs depend on the allocation history of the process "
+                        f"(object addresses: identity hashes, set/dict order of objects, id() used for ordering), not only on the input files",
+                        inp,
+                    )
+
+
+def replay_history(inp, rounds=60):
+    """the reference run again, then up to `rounds` in-process runs from step inp['step'] of the recorded plan on"""
+    with tempfile.TemporaryDirectory() as root:
+        work = Work(inp["case"], root)
+        ref, _ = work.run(inp["ref"])
+        first = None
+        outcomes = {}
+        for k in range(rounds):
+            cfg = dict(inp["run"]) if k == 0 else history_cfg(inp["plan_seed"], inp["step"] + k, inp["fmts"])
+            snap, err = work.run(cfg)
+            d = outcome_diff(ref, snap)
+            key = None if snap is None else tuple(sorted(snap.items()))
+            outcomes[key] = outcomes.get(key, 0) + 1
+            if d and first is None:
+                first = (k, d)
+            if first and len(outcomes) > 1 and k >= 10:
+                break
+        if first is None:
+            return None
+        return (
+            f"case {inp['case']['name']}: {sum(outcomes.values())} in-process runs on the same input files ended in {len(outcomes)} different "
+            f"ways ({sorted(outcomes.values(), reverse=True)} runs each); first difference from the reference run at repetition {first[0] + 1}: {first[1]}"
+        )
 
 
 def diff_snapshots(a, b):
@@ -273,13 +649,20 @@ def check_specimen(spec_dir, col):
 
 def replay(inp):
     col = Collector("replay")
+    if inp["kind"] == "history":
+        try:
+            return replay_history(inp)
+        finally:
+            _HOLD.clear()
     if inp["kind"] == "pair":
         with tempfile.TemporaryDirectory() as root:
             work = Work(inp["case"], root)
             ref, err = work.run(inp["ref"])
-            if ref is None:
-                return None
             cfg = dict(inp["run"])
+            if ref is None:
+                # the reference run refused the input: the other run must refuse it too
+                snap, _ = work.run(cfg)
+                return None if snap is None else f"the reference run {inp['ref']} refused the input ({err[-200:]}), run {cfg} accepted it"
             if inp.get("tpf_files"):
                 snap, err = work.run(cfg)
                 if snap is None:
@@ -287,6 +670,12 @@ def replay(inp):
                 d = diff_snapshots({n: v for n, v in ref.items() if n.endswith(".tpf")}, {n: v for n, v in snap.items() if n.endswith(".tpf")})
                 return d
             compare(work, inp["ref"], ref, cfg, col, rows_only=inp.get("rows_only", False))
+            if not col.failures and cfg.get("pre") is not None:
+                # a dependence on the state of the heap need not show with exactly the same prelude on another day
+                # (another interpreter build, other paths): try a few neighbouring preludes before giving up
+                for k in range(1, 7):
+                    if not col.failures:
+                        compare(work, inp["ref"], ref, dict(cfg, pre=cfg["pre"] + k), col)
     elif inp["kind"] == "asm-format":
         check_asm_format(inp["case"], col, True)
     elif inp["kind"] == "specimen":
@@ -303,6 +692,11 @@ def run(tier, seed, **opts):
         "0, 1, 2, random from three working directories with the FASTA index cache cold / warm, in process with index buffer sizes "
         "from 250000 down to 7 (incl. divisors of the gap lengths), in process in different orders after other inputs, and with "
         "the input supplied as FASTA / AGP / TPF; asm-format under different hash seeds; thorough: the 12 specimens twice; "
+        "tie maps (a short contig cut through its exact middle / into equal thirds by Pretext pieces, pieces overlapping or duplicating "
+        "each other, chromosomes of equal length; strands, order, one or several Pretext scaffolds, resolution above / below the piece "
+        "size; random maps with several such contigs) run repeatedly in one process in changing orders with allocation churn in between "
+        "(blocks of all small size classes and project objects allocated, partly freed in random order, partly kept), collector on / "
+        "off / collected first, and in fresh interpreters whose heap was used before the program starts; "
         "non-trivial = distinct (case, run configuration) compared with the reference run"
     )
     cases = [g.case_cut(), g.case_haps(), g.case_multi()]
@@ -319,6 +713,13 @@ def run(tier, seed, **opts):
     for case in cases[:2] if quick else cases[:6]:
         if not col.full:
             check_asm_format(case, col, quick)
+    ties = tie_family(quick, rng)
+    reps, n_pre = (12, 1) if quick else (40, 3)
+    if not col.full:
+        try:
+            check_history(ties, col, reps, n_pre, seed)
+        finally:
+            _HOLD.clear()
     n_spec = 0
     if not quick and SPECIMENS.is_dir():
         for spec in sorted(p for p in SPECIMENS.iterdir() if p.is_dir()):
@@ -329,6 +730,7 @@ def run(tier, seed, **opts):
     return col.result(
         bounds=f"{len(cases)} generated cases x (4" + ("" if quick else "+6") + " subprocess runs, 2 in-process runs, "
         + ("6" if quick else "11") + " buffer sizes, up to 4 input/output format pairs); 3 cases in "
-        + ("6" if quick else "6") + f" orders in one process; asm-format 3-4 conversions x 4 runs; {n_spec} specimens x 2 hash seeds",
+        + ("6" if quick else "6") + f" orders in one process; asm-format 3-4 conversions x 4 runs; {n_spec} specimens x 2 hash seeds; "
+        f"{len(ties)} tie maps x (1 reference + {n_pre} pre-used fresh interpreters + {reps} in-process runs in shuffled rounds with churn / gc modes)",
         exhaustive=False,
     )
